@@ -404,6 +404,33 @@ def main(tier, seed, replay=None):
         camp.write_evidence = False
         return camp.finish()
     camp.run_witnesses(replay_case)
+    # directed: the sibling of the failing Branch is a Task that runs a child execution synchronously; the Parallel state's failure is caught, and the child ends while the
+    # Catcher's (slow) Next state is still running: its result belongs to a terminated Branch and adds nothing
+    spec = mon.SPECS[PID]
+    for form in ("startExecution.sync", "startExecution.sync:2"):
+        for sched_ in ([], [1, 0, 2, 0, 1], [2, 2, 1, 1, 0, 0]):
+            kid = {"StartAt": "K1", "States": {"K1": {"Type": "Task", "Resource": fn("slow2"), "End": True}}}      # (answers after 9 s: the Catcher's Next state takes 7 s... see below)
+            definition = {"StartAt": "F", "States": {
+                "F": {"Type": "Parallel", "Next": "After", "ResultPath": "$.r", "Catch": [{"ErrorEquals": ["States.ALL"], "ResultPath": "$.err", "Next": "Caught"}], "Branches": [
+                    {"StartAt": "B0T", "States": {"B0T": {"Type": "Task", "Resource": fn("item"), "Parameters": {"k": 0}, "End": True}}},
+                    {"StartAt": "B1T", "States": {"B1T": {"Type": "Task", "Resource": "arn:aws:states:::states:" + form, "Parameters": {"StateMachineArn": "arn:aws:states:local:0123456789:stateMachine:kid", "Input": {"v": 1}}, "End": True}}}]},
+                "After": {"Type": "Task", "Resource": fn("after"), "End": True},
+                "Caught": {"Type": "Task", "Resource": fn("slow3"), "Parameters": {"caught.$": "$"}, "End": True}}}
+            oracle = {"item": {"seq": [{"ok": "$echo"}], "by_key": {json.dumps(0): [{"err": "Err0", "msg": "boom", "delay": 1}]}}, "after": {"seq": [{"ok": "$echo"}]},
+                      "slow2": {"seq": [{"ok": "$echo", "delay": 4}]}, "slow3": {"seq": [{"ok": "$echo", "delay": 9}]}}
+            c6 = {"kind": "parallel", "n": 2, "fails": ["task", None], "delays": [1, 0], "waits": [0, 0], "two": False, "outer": False, "catch": {"ErrorEquals": ["States.ALL"], "ResultPath": "$.err"},
+                  "slow_catch": True, "directed": "sync-child-sibling"}
+            mcase = {"definition": definition, "input": {"x": 1}, "oracle": oracle, "type": "STANDARD", "c06": c6, "features": ["Parallel"], "extra_machines": {"kid": kid}}
+            starts = [{"mode": "api", "input": {"x": 1}, "name": "e1"}]
+            c = dict(mcase, schedule=sched_, starts=starts)
+            try:
+                fails_, res_ = mon.evaluate(spec, mcase, sched_, starts, seed=seed)
+            except Exception as e:
+                camp.harness_error("directed sync-child case crashed the harness: %r" % (e,))
+                continue
+            camp.case(c, nontrivial=True, classes=["directed", "sibling-is-a-synchronous-child", "form-" + form.split(".")[-1]])
+            for b, d in tag(fails_, c6):
+                camp.fail(b, c, d)
     if tier == "thorough":
         run_shards(camp, __name__, "shard", 16, examples=1500)
     else:
